@@ -31,7 +31,7 @@ CHECKS.update({
    design_ref="§3 C08, Appendix B"),
  "C12": dict(level="exploration", engine="sdoc-explorer",
    technique="exhaustive limit sweep 1..=C+1 (C = exact call count from hook H2) over a bounded exhaustive corpus",
-   text="For every case of the small corpus the unlimited result and the exact number of tracked calls C are obtained, then every limit from 1 to C+1 is run: each result must equal the unlimited one or be 'call limit reached', and completing limits must be upward closed.",
+   text="For every case of the small corpus the unlimited result and the exact number of tracked calls C are obtained, then every limit from 1 to C+1 is run, with detailed error tracking off and on, on the VM and (compiled corpus) on the generated back-end: each result must equal the unlimited one or be 'call limit reached', and completing limits must be upward closed.",
    note="Process-global limit owned by single-threaded workers; cases needing more than 60 (quick) / 400 (thorough) calls are counted and skipped.",
    design_ref="§3 C12"),
  "C15": dict(level="exploration", engine="sdoc-explorer",
@@ -97,8 +97,8 @@ CHECKS.update({
    design_ref="§3 C14"),
 })
 CHECKS["C17"] = dict(level="model_checking", engine="loom-debugger",
-   technique="loom (DPOR with iterated preemption bound) over the real debugger source rebound to loom primitives; every explored schedule is a run of the real code checked against the sequential listener trace",
-   text="The real debugger/src/lib.rs is recompiled with its std::sync / std::thread imports bound to loom-backed shims (build.rs, no repository hook) and five controller scripts (run-to-end, breakpoint edits while stopped, re-run after the first event, immediate re-run with the precondition enforced exactly, re-run after the end) are explored for five grammar/input/breakpoint scenarios and channel capacities 1 and 2, at preemption bounds 0..4 (quick) and 0..6 plus unbounded with a time cap (thorough). In every schedule the delivered events must equal the sequential listener trace filtered by the breakpoint set followed by Eof or the plain VM error text, nothing may arrive between a breakpoint and its cont, and every run() must return with all threads able to terminate (loom reports deadlocks).",
+   technique="loom (DPOR with iterated preemption bound) over the real debugger source rebound to loom primitives; every explored schedule is a run of the real code checked against the reference entries of the parse (S_doc on the optimized rules); plus exhaustive command-line sessions of the real pest_debugger binary",
+   text="The real debugger/src/lib.rs is recompiled with its std::sync / std::thread imports bound to loom-backed shims (build.rs, no repository hook) and five controller scripts (run-to-end, breakpoint edits while stopped, re-run after the first event, immediate re-run with the precondition enforced exactly, re-run after the end) are explored (with the S2 edit variants: delete, delete-all, delete-all-then-add, add-all, swap) for ten grammar/input/breakpoint scenarios (incl. breakpoints on built-ins, silent rules, implicit WHITESPACE, stack built-ins) and channel capacities 1 and 2, at preemption bounds 0..4 (quick) and 0..6 plus unbounded with a time cap (thorough). In every schedule the delivered events must equal the entries of the parse - taken from the reference model S_doc run on the optimized rules, with which the VM's own listener trace is compared sequentially - filtered by the breakpoint set and followed by Eof or the plain VM error text, nothing may arrive between a breakpoint and its cont, and every run() must return with all threads able to terminate (loom reports deadlocks). The command-line front end (debugger/src/main.rs) is driven as the real binary built from /repo: 7 session forms (options in three orders, typed commands in short and long verbs, two mixtures) x 10 scenarios, printed event stream compared with the same expectation.",
    note="Spurious park wake-ups and orderings weaker than loom's C11 model are not explored; the bounded channel is the harness' loom model of sync_channel.",
    design_ref="§3 C17")
 CHECKS["C02"] = dict(level="translation_validation", engine="compiled-corpus-differential",
